@@ -49,6 +49,8 @@ def _cases(tier):
     for spec in A.graph_specs(gmax):
         for merge in pipeline.MERGE_POLICIES:
             yield {"h": [["G", spec]], "cfg": "graph", "merge": merge, "dkr": [r"k\d"]}
+    for spec in A.sibling_graph_specs():
+        yield {"h": [["G", spec]], "cfg": "graph", "merge": "default", "dkr": [r"k\d"]}
     # dict-option axis
     for opts in DICT_OPTS:
         for h in A.histories(DICT_OBJS, hd):
@@ -116,11 +118,13 @@ def _configs(case, tree):
         for fw in FWS:
             for lay in layouts:
                 out.append((fw, lay, dict(base_kw)))
+        for fw in ("pydantic", "dataclasses"):
+            out.append((fw, "flat", dict(base_kw, convert_unicode=False)))
         if cfg == "full+opts":
             for fw in ("attrs", "dataclasses"):
                 out.append((fw, "flat", dict(base_kw, post_init_converters=True)))
                 out.append((fw, "flat", dict(base_kw, meta=True)))
-            out.append(("pydantic", "flat", dict(base_kw, convert_unicode=False)))
+            out.append(("attrs", "flat", dict(base_kw, convert_unicode=False)))
     elif cfg == "ir+pydantic":
         out.append(("pydantic", "flat", dict(base_kw)))
     elif cfg == "ir+pydantic+dc":
@@ -171,19 +175,21 @@ def execute(case):
     code_viol = []
 
     def report(fwkey, layout, v):
-        # a nested-layout / sqlmodel violation that merely repeats the flat / pydantic one of the same
-        # case (same clause) is the same defect seen twice; only differences are reported under their own site
-        seen = flat_clauses.setdefault(fwkey, set())
-        if layout == "flat":
+        # A violation seen under a variant configuration (nested layout, sqlmodel, option switches) that
+        # merely repeats the clause already reported for the plain flat run of the same framework family
+        # on the same case is the same defect seen twice; only differences are reported under their own site.
+        fam = "pydantic" if fwkey[0] == "sqlmodel" else fwkey[0]
+        seen = flat_clauses.setdefault(fam, set())
+        plain = layout == "flat" and fwkey[1] == "{}" and fwkey[0] != "sqlmodel"
+        if plain:
             seen.add(v["clause"])
         elif v["clause"] in seen:
-            return
-        if fwkey[0] == "sqlmodel" and v["clause"] in flat_clauses.get(("pydantic",) + fwkey[1:], set()):
             return
         viol.append(v)
 
     for fw, layout, kw in _configs(case, tree):
-        tag = fw + ("+conv" if kw.get("post_init_converters") else "") + ("/" + layout if layout != "flat" else "")
+        tag = fw + ("+conv" if kw.get("post_init_converters") else "") + ("+nouni" if kw.get("convert_unicode") is False else "") \
+            + ("/" + layout if layout != "flat" else "")
         fwkey = (fw, core.jdump(kw))
         try:
             bb = _build(case, samples)
